@@ -65,7 +65,8 @@ fn actions(mode: u8) -> Vec<Act> {
     // mode 0: 2 endpoints x 2 tokens x 2 paths; 1: 3 endpoints x 3 tokens on ONE observed path; 2: 2 endpoints x
     // 1 token x THREE paths (the reachable set is the product of the per-path sets, so widening everything at once
     // is out of reach)
-    let eps: Vec<u32> = if mode == 1 { vec![1, 2, 3] } else { vec![1, 2] };
+    // 3 (thorough only): 3 endpoints x 2 tokens x 2 paths
+    let eps: Vec<u32> = if mode == 1 || mode == 3 { vec![1, 2, 3] } else { vec![1, 2] };
     let toks: Vec<u8> = match mode {
         1 => vec![0, 1, 2],
         2 => vec![0],
@@ -343,12 +344,12 @@ fn bfs_limit(prop: Prop, ctx: &Ctx, rep: &mut Report, limit: u8, with_setlimit: 
         }
     }
     let pname = if prop == Prop::C14 { "C14" } else { "C15" };
-    let name = format!("bfs-limit{}{}{}", limit, if with_setlimit { "-setlimit" } else { "" }, match mode { 1 => "-3endpoints-3tokens-1path", 2 => "-2endpoints-1token-3paths", _ => "" });
+    let name = format!("bfs-limit{}{}{}", limit, if with_setlimit { "-setlimit" } else { "" }, match mode { 1 => "-3endpoints-3tokens-1path", 2 => "-2endpoints-1token-3paths", 3 => "-3endpoints-2tokens-2paths", _ => "" });
     let desc = format!(
         "closed BFS of the real Subject with unacknowledged limit {}: {} actions ({}; notification rounds on the observed path(s) + 1 never-registered path x 2 message ids x CON/NON, acknowledgements from each endpoint + a stranger x 2 ids{}); canonical key = per path the ordered observers (endpoint, token, count, pending id), sequence excluded",
         limit,
         acts.len(),
-        match mode { 1 => "register/deregister x 3 endpoints x 3 tokens x 1 path", 2 => "register/deregister x 2 endpoints x 1 token x 3 paths", _ => "register/deregister x 2 endpoints x 2 tokens x 2 paths" },
+        match mode { 1 => "register/deregister x 3 endpoints x 3 tokens x 1 path", 2 => "register/deregister x 2 endpoints x 1 token x 3 paths", 3 => "register/deregister x 3 endpoints x 2 tokens x 2 paths", _ => "register/deregister x 2 endpoints x 2 tokens x 2 paths" },
         if with_setlimit { ", set_unacknowledged_limit 0/1/2" } else { "" }
     );
     let st = bfs::run(
@@ -488,6 +489,10 @@ pub fn run_c14(ctx: &Ctx, rep: &mut Report) {
         bfs_limit(Prop::C14, ctx, rep, 2, false, 1);
         bfs_limit(Prop::C14, ctx, rep, 1, true, 0);
         bfs_limit(Prop::C14, ctx, rep, 1, false, 2);
+        bfs_limit(Prop::C14, ctx, rep, 0, false, 3);
+        if ctx.config == "oc" {
+            bfs_limit(Prop::C14, ctx, rep, 1, false, 3); // 8.9 million states: one configuration only
+        }
     }
     rep.assume("refmodel::subject is the trusted reference; entry existence for a path whose observers all left and its sequence in unobserved rounds are not fixed by the statement and follow the implementation");
     rep.assume("hook accessors (cfg coap_lite_verif) expose the per-observer count and pending id for the canonical key; endpoint/token/order/sequence come from the public API");
@@ -754,6 +759,10 @@ pub fn run_c15(ctx: &Ctx, rep: &mut Report) {
         bfs_limit(Prop::C15, ctx, rep, 2, false, 1);
         bfs_limit(Prop::C15, ctx, rep, 1, true, 0);
         bfs_limit(Prop::C15, ctx, rep, 1, false, 2);
+        bfs_limit(Prop::C15, ctx, rep, 0, false, 3);
+        if ctx.config == "oc" {
+            bfs_limit(Prop::C15, ctx, rep, 1, false, 3);
+        }
     }
     directed(ctx, rep);
     long_run(ctx, rep);
